@@ -284,7 +284,7 @@ func ruleDepth(c *Ctx) {
 
 func ruleProgress(c *Ctx) {
 	const R = "R14-progress"
-	c.floor(R, 1)
+	c.floor(R, 4)
 	p := c.P
 	fn := c.need(R, "pm", "Find")
 	if fn == nil {
@@ -362,6 +362,65 @@ func ruleProgress(c *Ctx) {
 		}
 	}
 	c.check(okc && nback > 0, R, "Find:scan-advances", p.ipos(sp), "every back edge of the scan loop carries a position strictly greater than the previous one", "Find's scan loop can repeat without advancing the subject position (an empty match would loop forever)")
+
+	// exits of the scan loop: every position up to and including len(src) must be tried unless the
+	// match limit is reached or the pattern is anchored — no other reason to stop scanning exists.
+	h := sp.Block()
+	body := map[*ssa.BasicBlock]bool{h: true}
+	var back func(b *ssa.BasicBlock)
+	back = func(b *ssa.BasicBlock) {
+		if body[b] {
+			return
+		}
+		body[b] = true
+		for _, pr := range g.Preds(b) {
+			back(pr)
+		}
+	}
+	for _, pr := range g.Preds(h) {
+		if g.BlockDom(h, pr) {
+			back(pr)
+		}
+	}
+	headF := p.Field("pm", "seqPattern", "MustHead")
+	nexit := 0
+	for b := range body {
+		if g.Cut[b] >= 0 || len(b.Succs) != 2 {
+			continue
+		}
+		iff, ok := b.Instrs[len(b.Instrs)-1].(*ssa.If)
+		if !ok {
+			continue
+		}
+		for si, s := range b.Succs {
+			if body[s] {
+				continue
+			}
+			nexit++
+			sense := si == 0
+			why := ""
+			switch cv := iff.Cond.(type) {
+			case *ssa.BinOp:
+				k := vkey(cv)
+				switch {
+				case cv.X == ssa.Value(sp) && strings.HasPrefix(vkey(cv.Y), "len(p:src") && ((cv.Op == token.LEQ && !sense) || (cv.Op == token.GTR && sense)):
+					why = "position beyond the end of the subject"
+				case strings.Contains(k, "len(") && strings.Contains(k, "p:limit") && (cv.Op == token.EQL || cv.Op == token.GEQ) && sense:
+					why = "match limit reached"
+				}
+			case *ssa.UnOp:
+				if _, ok := loadsField(cv, headF); ok && sense {
+					why = "anchored pattern (^): only the first position is tried"
+				}
+			}
+			key := fmt.Sprintf("Find:scan-exit#%d", nexit)
+			if why != "" {
+				key = "Find:scan-exit:" + strings.Fields(why)[0] + "-" + strings.Fields(why)[1]
+			}
+			c.check(why != "", R, key, p.ipos(iff), "the scan stops because: "+why, "Find's scan loop has an exit that is neither 'position beyond the end', 'match limit reached' nor 'anchored pattern': positions up to and including len(subject) are skipped, so gsub/gmatch lose matches (e.g. the empty match at the end after a match that consumed the rest)")
+		}
+	}
+	c.check(nexit >= 3, R, "Find:scan-exits", p.ipos(sp), fmt.Sprintf("%d loop exits classified", nexit), "scan loop exits not found")
 }
 
 func ruleReadonly(c *Ctx) {
